@@ -35,7 +35,7 @@ Section Seq.
 
   Definition GoodX (x : option key) (s : shared) : Prop :=
     s_entry s = Generated /\ s_compiled s = true /\ s_defs s = D /\ s_map s < length (s_tables s) /\
-    t_regs (tbl s (s_map s)) = D /\ TInvX x (tbl s (s_map s)) /\ cn_ok s D.
+    t_regs (tbl s (s_map s)) = D /\ TInvX x (tbl s (s_map s)) /\ cn_ok s D /\ map fst (t_obj (tbl s (s_map s))) = D.
   Definition Good := GoodX None.
   Definition Recov (s : shared) : Prop := s_entry s = Boot /\ s_compiled s = false /\ s_defs s = D.
 
@@ -53,7 +53,7 @@ Section Seq.
   (* the mro step: self.all[k] = candidate codes *)
   Definition mro_upd (T : table) (k : key) : table :=
     {| t_regs := t_regs T; t_dict := t_dict T; t_errs := t_errs T;
-       t_all := aupd Nat.eqb k (handlers (chain (t_regs T) k)) (t_all T) |}.
+       t_all := aupd Nat.eqb k (handlers (chain (t_regs T) k)) (t_all T); t_obj := t_obj T |}.
 
   Lemma aget_mro_eq : forall T k, aget (mro_upd T k) k = Some (handlers (chain (t_regs T) k)).
   Proof. intros; unfold aget, mro_upd; cbn. apply alookup_aupd_eq. apply Nat.eqb_eq. Qed.
@@ -177,9 +177,28 @@ Section Seq.
     destruct H as [->|H]; [|apply IH; auto]. unfold is_bad_adapt. destruct (m_kind (meth d)); auto; discriminate.
   Qed.
 
+  (* ---- function objects ---- *)
+  Lemma last_obj_notin : forall h l d, ~ In h (map fst l) -> last_obj h l d = d.
+  Proof.
+    intros h l; induction l as [|[h' o] r IH]; intros d N; cbn in *; auto.
+    destruct (Nat.eqb h' h) eqn:E; [apply Nat.eqb_eq in E; subst; exfalso; apply N; auto|]. apply IH; tauto.
+  Qed.
+  Lemma last_obj_in : forall h l d, In h (map fst l) -> In (h, last_obj h l d) l.
+  Proof.
+    intros h l; induction l as [|[h' o] r IH]; intros d H; cbn in *; [contradiction|].
+    destruct (in_dec Nat.eq_dec h (map fst r)) as [I|N]; [right; apply IH; exact I|].
+    destruct H as [->|H]; [|contradiction]. rewrite Nat.eqb_refl, last_obj_notin by exact N. left; reflexivity.
+  Qed.
+  Lemma reg_oid : forall T h, In h (map fst (t_obj T)) -> registered T h (oid_of T h) = true.
+  Proof.
+    intros T h H. unfold registered, oid_of. apply existsb_exists. exists (h, last_obj h (t_obj T) 0).
+    split; [apply last_obj_in; exact H|]. cbn. rewrite !Nat.eqb_refl; reflexivity.
+  Qed.
+
   (* ---- the invariant of one operation running alone ---- *)
   Definition Fresh (s : shared) (R : list label) : Prop :=
-    s_map s < length (s_tables s) /\ tbl s (s_map s) = {| t_regs := R; t_dict := []; t_errs := []; t_all := [] |}.
+    s_map s < length (s_tables s) /\ exists ob, map fst ob = R /\
+    tbl s (s_map s) = {| t_regs := R; t_dict := []; t_errs := []; t_all := []; t_obj := ob |}.
   Definition comp_pre (s : shared) (a : after) : Prop :=
     match a with ADispatch _ => s_entry s = Boot /\ s_compiled s = false | ADone => s_compiled s = true end.
   Definition comp_post (s : shared) (a : after) : Prop :=
@@ -187,8 +206,8 @@ Section Seq.
   Definition after_ok (o : op) (a : after) : Prop :=
     match a with ADispatch k => o = OCall k | ADone => forall k, o <> OCall k end.
 
-  Definition AtNext (s : shared) (l : local) (h : label) (k : key) : Prop :=
-    Good s /\ Complete (tbl s (s_map s)) k /\
+  Definition AtNext (s : shared) (l : local) (h : label) (ob : nat) (k : key) : Prop :=
+    Good s /\ Complete (tbl s (s_map s)) k /\ registered (tbl s (s_map s)) h ob = true /\
     exists pre post, chain D k = pre ++ ROne h :: post /\ all_next meth pre /\ m_body (meth h) = BNext /\
                      l_trace l = handlers pre ++ [h].
 
@@ -207,21 +226,21 @@ Section Seq.
         | CAnalyze | CSwap => comp_pre s a /\ Fresh s []
         | CSnap => comp_post s a /\ Fresh s []
         | CAdapt d rest => comp_post s a /\ exists R, Fresh s R /\ R ++ d :: rest = D /\ cn_ok s R
-        | CReg d rest => comp_post s a /\ exists R, Fresh s R /\ R ++ d :: rest = D /\ cn_ok s (R ++ [d])
+        | CReg d _ rest => comp_post s a /\ exists R, Fresh s R /\ R ++ d :: rest = D /\ cn_ok s (R ++ [d])
         | CFlag => comp_post s a /\ Fresh s D /\ cn_ok s D
         end
     | PDispatch k => o = OCall k /\ l_trace l = [] /\ Good s
-    | PMro t k cl => o = OCall k /\ l_trace l = [] /\ cl = 0 /\ t = s_map s /\ Good s
-    | PWrite t k cl st ws => o = OCall k /\ l_trace l = [] /\ cl = 0 /\ t = s_map s /\ GoodX (Some k) s /\
+    | PMro t k cl => o = OCall k /\ l_trace l = [] /\ cl = None /\ t = s_map s /\ Good s
+    | PWrite t k cl st ws => o = OCall k /\ l_trace l = [] /\ cl = None /\ t = s_map s /\ GoodX (Some k) s /\
         (st = false -> Good s) /\ chain D k <> [] /\ aget (tbl s t) k = Some (handlers (chain D k)) /\
         exists done, Wk k (tbl s t) = done ++ ws /\ forall w, In w done -> present (tbl s t) w
-    | PAfter t k cl => o = OCall k /\ l_trace l = [] /\ cl = 0 /\ t = s_map s /\ Good s /\ chain D k <> [] /\
+    | PAfter t k cl => o = OCall k /\ l_trace l = [] /\ cl = None /\ t = s_map s /\ Good s /\ chain D k <> [] /\
         Complete (tbl s t) k
-    | PRun h k => o = OCall k /\ Good s /\ Complete (tbl s (s_map s)) k /\
+    | PRun h ob k => o = OCall k /\ Good s /\ Complete (tbl s (s_map s)) k /\ registered (tbl s (s_map s)) h ob = true /\
         exists pre post, chain D k = pre ++ ROne h :: post /\ all_next meth pre /\ l_trace l = handlers pre
-    | PNext h k => o = OCall k /\ AtNext s l h k
-    | PN1 t h k => o = OCall k /\ t = s_map s /\ AtNext s l h k
-    | PN2 t h k => o = OCall k /\ t = s_map s /\ AtNext s l h k
+    | PNext h ob k => o = OCall k /\ AtNext s l h ob k
+    | PN1 t h ob k => o = OCall k /\ t = s_map s /\ AtNext s l h ob k
+    | PN2 t h ob k => o = OCall k /\ t = s_map s /\ AtNext s l h ob k
     | PDone r => Good s /\
         match o with
         | OCall k => (l_trace l, r) = spec_call chain meth D k
@@ -231,16 +250,17 @@ Section Seq.
 
   Lemma Fresh_TInv : forall s, Fresh s D -> TInvX None (tbl s (s_map s)).
   Proof.
-    intros s [_ E] k. rewrite E. split; [split; [|split]|]; unfold dget, eget, aget; cbn; intros; discriminate.
+    intros s [_ (ob & _ & E)] k. rewrite E. split; [split; [|split]|]; unfold dget, eget, aget; cbn; intros; discriminate.
   Qed.
 
-  Lemma Good_setmap : forall x s T', GoodX x s -> t_regs T' = D -> TInvX x T' -> GoodX x (set_tbl s (s_map s) T').
+  Lemma Good_setmap : forall x s T', GoodX x s -> t_regs T' = D -> t_obj T' = t_obj (tbl s (s_map s)) -> TInvX x T' ->
+    GoodX x (set_tbl s (s_map s) T').
   Proof.
-    intros x s T' (A & B & C & E & F & G & H) HR HT. unfold GoodX.
+    intros x s T' (A & B & C & E & F & G & H & O) HR HO HT. unfold GoodX.
     assert (TB : tbl (set_tbl s (s_map s) T') (s_map s) = T') by (apply tbl_set_eq; exact E).
     cbn [s_entry s_compiled s_defs s_map set_tbl]. change (s_map (set_tbl s (s_map s) T')) with (s_map s).
     repeat (split; [assumption|]). split; [cbn; rewrite length_set_nth; exact E|].
-    cbn [s_map] in *. rewrite TB. repeat (split; [assumption|]). exact H.
+    cbn [s_map] in *. rewrite TB. split; [exact HR|]. split; [exact HT|]. split; [exact H|]. rewrite HO; exact O.
   Qed.
 
   Notation step := (tstep chain meth).
@@ -264,58 +284,54 @@ Section Seq.
     cbn. rewrite B. cbn. unfold LInv; cbn. repeat split; auto.
   Qed.
 
-  Lemma Fresh_same_tables : forall s s' R, s_map s' = s_map s -> s_tables s' = s_tables s -> Fresh s R -> Fresh s' R.
-  Proof. intros s s' R A B [F1 F2]. unfold Fresh, tbl in *. rewrite A, B. auto. Qed.
-
-  Lemma fill_next_inv : forall o s tr a R rest, after_ok o a -> s_defs s = D -> comp_post s a -> Fresh s R ->
-    R ++ rest = D -> cn_ok s R -> LInv o s {| l_pc := fill_next rest a; l_trace := tr |} -> True.
-  Proof. auto. Qed.
-
   Lemma step_comp : forall o s tr c a, LInv o s {| l_pc := PComp c a; l_trace := tr |} ->
     LInv o (fst (step s {| l_pc := PComp c a; l_trace := tr |})) (snd (step s {| l_pc := PComp c a; l_trace := tr |})).
   Proof.
     intros o s tr c a H. unfold LInv in H; cbn in H. destruct H as (AO & -> & HD & H).
-    destruct c as [| | | | |d rest|d rest|]; cbn.
+    destruct c as [| | | | |d rest|d ob rest|]; cbn.
     - (* CPrep *) unfold LInv; cbn. auto.
-    - (* CNewMap *) unfold LInv; cbn. repeat split; auto.
-      + cbn. rewrite app_length; cbn; lia.
-      + unfold tbl; cbn. rewrite app_nth2, Nat.sub_diag; auto.
+    - (* CNewMap *) unfold LInv; cbn. split; [exact AO|]. split; [reflexivity|]. split; [exact HD|]. split; [exact H|].
+      split; [cbn; rewrite app_length; cbn; lia|]. exists []. split; [reflexivity|].
+      unfold tbl; cbn. rewrite app_nth2, Nat.sub_diag; auto.
     - (* CAnalyze *) rewrite HD, not_bad_analysis. cbn. unfold LInv; cbn. auto.
-    - (* CSwap *) destruct H as [CP F]. unfold LInv; cbn. repeat split; auto.
-      + destruct a; cbn in *; auto.
-      + apply F.
-      + apply F.
+    - (* CSwap *) destruct H as [CP F]. unfold LInv; cbn. split; [exact AO|]. split; [reflexivity|]. split; [exact HD|].
+      split; [|exact F]. split; [reflexivity|]. destruct a; cbn in *; auto.
     - (* CSnap *) destruct H as [CP F]. destruct (s_defs s) as [|d rest] eqn:ED; cbn; unfold LInv; cbn; rewrite ?ED.
       + repeat (split; [first [assumption|reflexivity]|]). rewrite <- HD. split; [exact F|]. intros [x [[] _]].
       + repeat (split; [first [assumption|reflexivity]|]). exists []. split; [exact F|]. split; [exact HD|]. intros [x [[] _]].
     - (* CAdapt *) destruct H as [CP (R & F & E & CN)].
       rewrite not_bad_adapt by (rewrite <- E; apply in_or_app; right; left; reflexivity).
-      destruct (m_recoded (meth d)) eqn:RC; cbn; unfold LInv; cbn.
-      + repeat split; auto; try apply CP. exists R. repeat split; auto; try apply F.
-      + repeat split; auto; try apply CP. exists R. repeat split; auto; try apply F.
-        intros [x [Hx Hr]]. apply CN. exists x; split; auto.
-        apply in_app_or in Hx as [Hx|[<-|[]]]; auto. rewrite RC in Hr; discriminate.
-    - (* CReg *) destruct H as [CP (R & [F1 F2] & E & CN)].
-      set (T' := {| t_regs := t_regs (tbl s (s_map s)) ++ [d]; t_dict := []; t_errs := []; t_all := [] |}).
+      cbn. unfold LInv; cbn. split; [exact AO|]. split; [reflexivity|]. split; [exact HD|]. split; [exact CP|].
+      exists R. split; [exact F|]. split; [exact E|].
+      unfold cn_ok; cbn. destruct (m_recoded (meth d)) eqn:RC; [intros _; reflexivity|].
+      intros [x [Hx Hr]]. apply CN. exists x; split; auto.
+      apply in_app_or in Hx as [Hx|[<-|[]]]; auto. rewrite RC in Hr; discriminate.
+    - (* CReg *) destruct H as [CP (R & [F1 (ob0 & FO & F2)] & E & CN)].
+      set (T' := {| t_regs := t_regs (tbl s (s_map s)) ++ [d]; t_dict := []; t_errs := []; t_all := []; t_obj := t_obj (tbl s (s_map s)) ++ [(d, ob)] |}).
       assert (FR : Fresh (set_tbl s (s_map s) T') (R ++ [d])).
       { split; [cbn; rewrite length_set_nth; exact F1|]. change (s_map (set_tbl s (s_map s) T')) with (s_map s).
-        rewrite tbl_set_eq by exact F1. unfold T'. rewrite F2; reflexivity. }
+        rewrite tbl_set_eq by exact F1. unfold T'. rewrite F2. cbn. exists (ob0 ++ [(d, ob)]). split; [|reflexivity].
+        rewrite map_app, FO. reflexivity. }
       destruct rest as [|d' rest']; cbn; unfold LInv; cbn.
       + split; [exact AO|]. split; [reflexivity|]. split; [exact HD|]. split; [exact CP|].
         rewrite <- E. split; [exact FR|exact CN].
       + split; [exact AO|]. split; [reflexivity|]. split; [exact HD|]. split; [exact CP|].
         exists (R ++ [d]). split; [exact FR|]. split; [rewrite <- app_assoc; exact E|exact CN].
     - (* CFlag *) destruct H as [CP (F & CN)].
-      assert (G : Good {| s_entry := s_entry s; s_compiled := true; s_map := s_map s; s_cnmap := s_cnmap s; s_tables := s_tables s; s_defs := s_defs s |}).
+      assert (G : Good {| s_entry := s_entry s; s_compiled := true; s_map := s_map s; s_cnmap := s_cnmap s; s_tables := s_tables s; s_defs := s_defs s; s_next := s_next s |}).
       { unfold Good, GoodX. split; [apply CP|]. split; [reflexivity|]. split; [exact HD|]. split; [apply F|].
-        split; [|split; [exact (Fresh_TInv s F)|exact CN]].
-        destruct F as [_ F2]. change (t_regs (tbl s (s_map s)) = D). rewrite F2; reflexivity. }
+        destruct F as [F1 (ob0 & FO & F2)].
+        split; [change (t_regs (tbl s (s_map s)) = D); rewrite F2; reflexivity|].
+        split; [exact (Fresh_TInv s (conj F1 (ex_intro _ ob0 (conj FO F2))))|]. split; [exact CN|].
+        change (map fst (t_obj (tbl s (s_map s))) = D). rewrite F2; exact FO. }
       destruct a as [k|]; cbn in *; unfold LInv; cbn.
       + split; [exact AO|]. split; [reflexivity|exact G].
       + split; [exact G|]. destruct o; auto. exfalso; eapply AO; reflexivity.
   Qed.
 
   Lemma Good_regs : forall x s, GoodX x s -> t_regs (tbl s (s_map s)) = D.
+  Proof. intros x s G; apply G. Qed.
+  Lemma Good_objs : forall x s, GoodX x s -> map fst (t_obj (tbl s (s_map s))) = D.
   Proof. intros x s G; apply G. Qed.
   Lemma Good_sound : forall x s k, GoodX x s -> Sound (tbl s (s_map s)) k.
   Proof. intros x s k (_ & _ & _ & _ & _ & G & _); apply G. Qed.
@@ -328,12 +344,17 @@ Section Seq.
     split; [|exact H]. eapply TInvX_close; eauto.
   Qed.
 
+  Lemma chain_reg : forall s k h, Good s -> In h (handlers (chain D k)) -> registered (tbl s (s_map s)) h (oid_of (tbl s (s_map s)) h) = true.
+  Proof. intros s k h G H. apply reg_oid. rewrite (Good_objs _ _ G). eapply Hsub; eauto. Qed.
+
   Lemma hit_run : forall s k h, Good s -> dget (tbl s (s_map s)) (0, k) = Some h -> Complete (tbl s (s_map s)) k ->
-    LInv (OCall k) s {| l_pc := PRun h k; l_trace := [] |}.
+    LInv (OCall k) s {| l_pc := PRun h (oid_of (tbl s (s_map s)) h) k; l_trace := [] |}.
   Proof.
     intros s k h G Hd Cp. unfold LInv; cbn. split; [reflexivity|]. split; [exact G|]. split; [exact Cp|].
     destruct (Good_sound _ s k G) as (S1 & _ & _). apply S1 in Hd. unfold Wk in Hd. rewrite (Good_regs _ _ G) in Hd.
-    apply first_write in Hd as [post E]. exists [], post. split; [exact E|]. split; [intros r []|reflexivity].
+    apply first_write in Hd as [post E].
+    split; [apply (chain_reg s k h G); rewrite E; left; reflexivity|].
+    exists [], post. split; [exact E|]. split; [intros r []|reflexivity].
   Qed.
 
   Lemma step_dispatch : forall o s tr k, LInv o s {| l_pc := PDispatch k; l_trace := tr |} ->
@@ -354,7 +375,7 @@ Section Seq.
     unfold tstep; lcbn.
     set (T := tbl s (s_map s)).
     change {| t_regs := t_regs T; t_dict := t_dict T; t_errs := t_errs T;
-              t_all := aupd Nat.eqb k (handlers (chain (t_regs T) k)) (t_all T) |} with (mro_upd T k).
+              t_all := aupd Nat.eqb k (handlers (chain (t_regs T) k)) (t_all T); t_obj := t_obj T |} with (mro_upd T k).
     assert (G' : Good (set_tbl s (s_map s) (mro_upd T k))).
     { apply Good_setmap; auto. apply (Good_regs _ _ G). apply TInvX_mro. apply G. }
     pose proof (Good_regs _ _ G) as HR. fold T in HR.
@@ -384,6 +405,7 @@ Section Seq.
     - (* one write *)
       assert (Hw : In w (Wk k T)) by (rewrite EW; apply in_or_app; right; left; reflexivity).
       assert (HR' : t_regs (apply_wr T w) = t_regs T) by (destruct w; reflexivity).
+      assert (HO' : t_obj (apply_wr T w) = t_obj T) by (destruct w; reflexivity).
       assert (TB : tbl (set_tbl s (s_map s) (apply_wr T w)) (s_map s) = apply_wr T w) by (apply tbl_set_eq; apply G).
       assert (G' : GoodX (Some k) (set_tbl s (s_map s) (apply_wr T w))).
       { apply Good_setmap; auto. rewrite HR'; exact HR. apply TInvX_write; auto. apply G. }
@@ -424,48 +446,49 @@ Section Seq.
     spec_call chain meth D k = walk meth (ROne h :: post) (handlers pre).
   Proof. intros k pre h post E AN. unfold spec_call. rewrite E, walk_pre; auto. Qed.
 
-  Lemma next_hit : forall s l h k h2, AtNext s l h k -> dget (tbl s (s_map s)) (S h, k) = Some h2 ->
-    LInv (OCall k) s {| l_pc := PRun h2 k; l_trace := l_trace l |}.
+  Lemma next_hit : forall s l h ob k h2, AtNext s l h ob k -> dget (tbl s (s_map s)) (S h, k) = Some h2 ->
+    LInv (OCall k) s {| l_pc := PRun h2 (oid_of (tbl s (s_map s)) h2) k; l_trace := l_trace l |}.
   Proof.
-    intros s l h k h2 (G & Cp & pre & post & E & AN & HB & TR) Hd.
+    intros s l h ob k h2 (G & Cp & RG & pre & post & E & AN & HB & TR) Hd.
     destruct (Good_sound _ s k G) as (S1 & _ & _). apply S1 in Hd. unfold Wk in Hd. rewrite (Good_regs _ _ G), E in Hd.
     pose proof (Hnd D k D_nodup) as ND. rewrite E in ND.
     pose proof (writes_next k post pre 0 h _ ND (all_next_one _ AN) ltac:(discriminate) Hd eq_refl) as W.
     destruct post as [|[h2'|hs] p]; [contradiction| |discriminate]. injection W as ->.
     unfold LInv; lcbn. split; [reflexivity|]. split; [exact G|]. split; [exact Cp|].
+    split; [apply (chain_reg s k h2' G); rewrite E, handlers_app; apply in_or_app; right; right; left; reflexivity|].
     exists (pre ++ [ROne h]), p. split; [rewrite <- app_assoc; exact E|]. split; [apply all_next_snoc; auto|].
     rewrite TR, handlers_app. reflexivity.
   Qed.
 
-  Lemma step_run : forall o s tr h k, LInv o s {| l_pc := PRun h k; l_trace := tr |} ->
-    LInv o (fst (step s {| l_pc := PRun h k; l_trace := tr |})) (snd (step s {| l_pc := PRun h k; l_trace := tr |})).
+  Lemma step_run : forall o s tr h ob k, LInv o s {| l_pc := PRun h ob k; l_trace := tr |} ->
+    LInv o (fst (step s {| l_pc := PRun h ob k; l_trace := tr |})) (snd (step s {| l_pc := PRun h ob k; l_trace := tr |})).
   Proof.
-    intros o s tr h k H. unfold LInv in H; cbn [l_pc l_trace] in H.
-    destruct H as (-> & G & Cp & pre & post & E & AN & ->).
+    intros o s tr h ob k H. unfold LInv in H; cbn [l_pc l_trace] in H.
+    destruct H as (-> & G & Cp & RG & pre & post & E & AN & ->).
     unfold tstep; lcbn. destruct (m_body (meth h)) eqn:HB; lcbn; unfold LInv; lcbn.
     - split; [exact G|]. rewrite (spec_at k pre h post E AN). cbn. rewrite HB. reflexivity.
-    - split; [reflexivity|]. split; [exact G|]. split; [exact Cp|]. exists pre, post. auto.
+    - split; [reflexivity|]. split; [exact G|]. split; [exact Cp|]. split; [exact RG|]. exists pre, post. auto.
   Qed.
 
-  Lemma step_next : forall o s tr h k, LInv o s {| l_pc := PNext h k; l_trace := tr |} ->
-    LInv o (fst (step s {| l_pc := PNext h k; l_trace := tr |})) (snd (step s {| l_pc := PNext h k; l_trace := tr |})).
+  Lemma step_next : forall o s tr h ob k, LInv o s {| l_pc := PNext h ob k; l_trace := tr |} ->
+    LInv o (fst (step s {| l_pc := PNext h ob k; l_trace := tr |})) (snd (step s {| l_pc := PNext h ob k; l_trace := tr |})).
   Proof.
-    intros o s tr h k H. unfold LInv in H; cbn [l_pc l_trace] in H. destruct H as (-> & AT).
-    pose proof AT as (G & Cp & pre & post & E & AN & HB & TR).
+    intros o s tr h ob k H. unfold LInv in H; cbn [l_pc l_trace] in H. destruct H as (-> & AT).
+    pose proof AT as (G & Cp & RG & pre & post & E & AN & HB & TR).
     assert (CN : s_cnmap s = s_map s).
-    { destruct G as (_ & _ & _ & _ & _ & _ & CN). apply CN. exists h. split; [|apply Hrec; exact HB].
+    { destruct G as (_ & _ & _ & _ & _ & _ & CN & _). apply CN. exists h. split; [|apply Hrec; exact HB].
       apply (Hsub D k). rewrite E, handlers_app. apply in_or_app; right; left; reflexivity. }
-    unfold tstep; lcbn. rewrite CN.
+    unfold tstep; lcbn. rewrite CN, RG.
     destruct (alookup ckey_eqb (S h, k) (t_dict (tbl s (s_map s)))) as [h2|] eqn:ED; lcbn.
-    - apply (next_hit s {| l_pc := PNext h k; l_trace := tr |} h k h2 AT ED).
+    - apply (next_hit s {| l_pc := PNext h ob k; l_trace := tr |} h ob k h2 AT ED).
     - unfold LInv; lcbn. auto.
   Qed.
 
-  Lemma step_n1 : forall o s tr t h k, LInv o s {| l_pc := PN1 t h k; l_trace := tr |} ->
-    LInv o (fst (step s {| l_pc := PN1 t h k; l_trace := tr |})) (snd (step s {| l_pc := PN1 t h k; l_trace := tr |})).
+  Lemma step_n1 : forall o s tr t h ob k, LInv o s {| l_pc := PN1 t h ob k; l_trace := tr |} ->
+    LInv o (fst (step s {| l_pc := PN1 t h ob k; l_trace := tr |})) (snd (step s {| l_pc := PN1 t h ob k; l_trace := tr |})).
   Proof.
-    intros o s tr t h k H. unfold LInv in H; cbn [l_pc l_trace] in H. destruct H as (-> & -> & AT).
-    pose proof AT as (G & Cp & pre & post & E & AN & HB & TR).
+    intros o s tr t h ob k H. unfold LInv in H; cbn [l_pc l_trace] in H. destruct H as (-> & -> & AT).
+    pose proof AT as (G & Cp & RG & pre & post & E & AN & HB & TR).
     unfold tstep; lcbn.
     destruct (alookup ckey_eqb (0, k) (t_dict (tbl s (s_map s)))) as [h0|] eqn:ED; lcbn.
     - unfold LInv; lcbn. auto.
@@ -476,16 +499,16 @@ Section Seq.
       cbn in P. unfold dget in P. rewrite ED in P; discriminate.
   Qed.
 
-  Lemma step_n2 : forall o s tr t h k, LInv o s {| l_pc := PN2 t h k; l_trace := tr |} ->
-    LInv o (fst (step s {| l_pc := PN2 t h k; l_trace := tr |})) (snd (step s {| l_pc := PN2 t h k; l_trace := tr |})).
+  Lemma step_n2 : forall o s tr t h ob k, LInv o s {| l_pc := PN2 t h ob k; l_trace := tr |} ->
+    LInv o (fst (step s {| l_pc := PN2 t h ob k; l_trace := tr |})) (snd (step s {| l_pc := PN2 t h ob k; l_trace := tr |})).
   Proof.
-    intros o s tr t h k H. unfold LInv in H; cbn [l_pc l_trace] in H. destruct H as (-> & -> & AT).
-    pose proof AT as (G & Cp & pre & post & E & AN & HB & TR). cbn [l_trace] in TR.
+    intros o s tr t h ob k H. unfold LInv in H; cbn [l_pc l_trace] in H. destruct H as (-> & -> & AT).
+    pose proof AT as (G & Cp & RG & pre & post & E & AN & HB & TR). cbn [l_trace] in TR.
     unfold tstep; lcbn. set (T := tbl s (s_map s)) in *.
     pose proof (Good_regs _ _ G) as HR. fold T in HR.
     destruct (Good_sound _ s k G) as (S1 & S2 & S3). fold T in S1, S2, S3.
-    destruct Cp as [CA CP]. unfold aget in CA. rewrite CA, HR, E.
-    rewrite mem_in by (rewrite handlers_app; apply in_or_app; right; left; reflexivity). cbn [negb].
+    destruct Cp as [CA CP]. unfold aget in CA. rewrite CA, HR, E, RG.
+    rewrite mem_in by (rewrite handlers_app; apply in_or_app; right; left; reflexivity). cbn [negb andb].
     pose proof (Hnd D k D_nodup) as ND. rewrite E in ND.
     assert (SP : spec_call chain meth D k = walk meth post (tr)).
     { rewrite (spec_at k pre h post E AN). cbn. rewrite HB, TR. reflexivity. }
@@ -495,7 +518,7 @@ Section Seq.
       destruct post as [|[h2'|hs] p]; [contradiction|discriminate|]. injection W as ->.
       unfold LInv; lcbn. split; [exact G|]. rewrite SP. reflexivity.
     - destruct (alookup ckey_eqb (S h, k) (t_dict T)) as [h2|] eqn:ED; lcbn.
-      + apply (next_hit s {| l_pc := PN2 (s_map s) h k; l_trace := tr |} h k h2 AT ED).
+      + apply (next_hit s {| l_pc := PN2 (s_map s) h ob k; l_trace := tr |} h ob k h2 AT ED).
       + assert (post = []) as ->.
         { destruct post as [|[h2|hs] p]; [reflexivity| |]; exfalso.
           - assert (P : present T (WDict (S h, k) h2)).
